@@ -153,6 +153,7 @@ const FUNCTIONS: &[&str] = &[
     "VARPTR", "VARSEG",
     // a name that is neither a built-in nor defined by the program (QBasic's ASC is not implemented)
     "ASC",
+    "NOSUCH$",
 ];
 
 const ARGS: &[&str] = &[
